@@ -330,6 +330,7 @@ func (cc *grpcClientConn) Receive(msg any) error {
 		// We got what gRPC calls a trailers-only response, which puts the trailing
 		// metadata (including errors) into HTTP headers. validateResponse has
 		// already extracted the error.
+		cc.duplexCall.SetError(err)
 		return err
 	}
 	// See if the server sent an explicit error in the HTTP or gRPC-Web trailers.
